@@ -109,14 +109,15 @@ def build(name, driver_srcs, repo_srcs, san="asan", defines=(), extra_flags=(), 
         with open(os.path.join(cdir, fn), "w") as f:
             f.write(text)
     extra_flags = list(extra_flags) + ["-I" + cdir]
+    tmpb = "%s.tmp%d" % (binp, os.getpid())      # two checks may build the same binary at the same time
     cmd = (["clang", "-O1", "-g", "-w"] + SAN[san] + ["-DLLTD_VERIF_HOOKS"] + ["-D" + d for d in defines]
            + list(extra_flags)
            + ["-I" + os.path.join(REPO, "lltdResponder"), "-I" + os.path.join(REPO, "os/esp32/daemon"), "-I" + HARNESS]
-           + ["-o", binp + ".tmp"] + srcs + list(libs))
+           + ["-o", tmpb] + srcs + list(libs))
     rc, so, se = sh(cmd, timeout=600)
     if rc != 0:
         raise Infra("build of %s failed:\n%s" % (name, se[-4000:]))
-    os.replace(binp + ".tmp", binp)
+    os.replace(tmpb, binp)
     return binp
 
 
@@ -135,7 +136,7 @@ def build_linuxport(san="asan"):
 
 
 def build_responder(san="asan"):
-    return build("run_responder", ["run_responder.c", "vport.c"], CORE + ["os/esp32/daemon/lltd_esp32.c"], san=san)
+    return build("run_responder", ["run_responder.c", "vport.c"], CORE + ["os/esp32/daemon/lltd_esp32.c"], san=san, libs=("-lpthread",))
 
 
 # ------------------------------------------------------------------ work dirs
